@@ -277,7 +277,7 @@ theorem main0Match_mono {f f' : F} (hle : FLe f f') {fuel : Nat} {cfg : Cfg} {sc
     {s : St} {r : MRes} {s' : St} (heq : main0Match env f fuel cfg scope s = (r, s'))
     (hr : r ≠ .raise .outOfFuel) : main0Match env f' (fuel + 1) cfg scope s = (r, s') := by
   unfold main0Match at heq ⊢
-  generalize hb : blockMatch env f fuel cfg (s.enter scope) = br at heq
+  generalize hb : blockMatch env f fuel cfg ((ghostIf (s.sym.clashes scope) Ghost.nameClash s).enter scope) = br at heq
   obtain ⟨r0, s2⟩ := br
   have h0 : r0 ≠ .raise .outOfFuel := by
     intro h; subst h
